@@ -30,6 +30,11 @@ def main():
             res = "NOT detected (known gap): " + meta["not_detected"][:160]
         elif sw:
             res = "exit %s" % sw.get("exit", sw.get("error"))
+        elif meta.get("detected_by"):
+            # not in the last sweep: the result recorded when the change was confirmed (tools/seedtest.py)
+            cr = (meta.get("check_results") or {}).get(meta["breaks_property"], {})
+            v = (cr.get("lines") or [""])[0]
+            res = "detected: `" + re.sub(r".*replays/(.*?)\.json.*", r"\1", v) + "`" + (" (no-failing-input-found)" if "no-failing" in v else "") + " (at confirmation)"
         else:
             res = "not swept yet"
         if meta.get("ported"):
